@@ -139,6 +139,12 @@ def check_writer(ctx, prog, R, eff, kind, fn, r_rec, piece):
                   "writer-arms", kind + ":grow:frees-own-slot", "the slot freed when a record moves is not (its old offset, its old stored size)", where=where(fn, b))
         ctx.check(all(pb in fn.reachable(fn.normal_succs(b)) and b not in fn.reachable_ok(fn.normal_succs(pb)) for pb, _ in pops),
                   "writer-arms", kind + ":grow:push-before-pop", "the old slot is freed after the new one is taken", where=where(fn, b))
+    # ---- no write that was not sized: every path to a record write passes the fit arm (old slot large enough) or the pop
+    # (a slot of the rounded-up size was taken); a shortcut "it is the same record, it still fits" is exactly the
+    # overrun this property excludes (variable-length link fields grow)
+    for b, t in calls_to(prog, fn, target_fn=rec):
+        ctx.check(b not in fn.reachable_ok([0], avoid={fit_entry} | {pb_ for pb_, _ in pops}), "writer-arms", kind + ":write-is-sized",
+                  "the %s record can be written into a slot without the fit test or a fresh allocation having decided that it fits" % kind, where=where(fn, b))
     # ---- allocation
     if ctx.check(len(pops) == 1, "alloc", kind + ":one-pop", "expected exactly one free-list pop in the %s record writer" % kind, where=where(fn)):
         pb, pt = pops[0]
